@@ -93,6 +93,10 @@ pub const CONTEXTS: &[Ctx1] = &[
     cx!("(unless • (p K))"),
     cx!("(if • (p K))"),
     cx!("(begin (set! g •) g)"),
+    // elements of a vector template that are dotted pairs with unquoted tails
+    cx!("`#((K . ,•) (K . ,(p K)) K)"),
+    // a vector template as the dotted tail of a list template
+    cx!("`(K . #(K ,•))"),
     // a compound key before a clause with =>: the key is evaluated once
     cx!("(case (car (list •)) ((11 12 13 14 15 16 17 18 19 20 21 22 23 24 25 26 27 28 29 30 31 32 33 34 35 36 37 38 39 40) => (lambda (x) (list 'c x))) ((s) 'sym) (else => (lambda (x) (list 'e x))))", &[]),
     // conditionals whose other arm is a derived form (a call of a fresh closure in tail position)
@@ -505,6 +509,12 @@ pub const HYGIENE_PROBES: &[&str] = &[
     "(let ((memv (lambda (a b) #f))) (case 1 ((1) 'one) (else 'other)))",
     "(let ((make-promise list)) (force (delay 5)))",
     "(let ((begin 5)) (when #t 1 2))",
+    // a macro keyword bound as a variable is a variable
+    "(let ((and 1) (x 2)) x)",
+    "((lambda (when) when) 5)",
+    // the prelude's map is written in terms of the user-visible, non-standard helpers any? and map1
+    "(define (any? p l) #t) (map car '((1) (2)))",
+    "(define (map1 f l) '()) (map car '((1) (2)))",
     // controls: the same shapes with names no macro mentions
     "(let ((x 5)) (or #f x))",
     "(let ((t 7)) (cond (1 => (lambda (x) (list x t)))))",
@@ -575,7 +585,7 @@ pub fn run(ctx: &Ctx) -> i32 {
         let _ = &mut st;
         for text in HYGIENE_PROBES {
             acc.evals += 1;
-            let forms = vec![parse_forms(text).unwrap().remove(0)];
+            let forms = parse_forms(text).unwrap();
             let mut p = fresh_pair("");
             let run = run_session_on(&mut p.m, &mut p.im, &forms);
             match &run.verdict {
@@ -641,7 +651,7 @@ pub fn run(ctx: &Ctx) -> i32 {
     rep.transitions = Some(acc.evals * 3);
     rep.traces_validated = Some(acc.nontrivial + val.forms_agreeing);
     rep.rule = format!(
-        "A. every chain of <= {} one-hole contexts ({} contexts, the 22 extended ones - nested quasiquote, case =>, multi-expression cond clause, multi-list map / for-each, let with internal define, empty let*, a promise forced twice, apply of map, accumulating named let, and / or / when / unless / one-armed if with the hole as a non-final operand or test, set! of a global - only below the maximal depth: operand positions, fixed/variadic/rest lambdas, apply, let/let*/letrec/named let, begin, if, cond (else, =>, test-only), case (clause, key, else =>), and/or/when/unless, quasiquote (list, vector, nested, cdr), delay/force, internal defines, set!, map/for-each callbacks, call/cc (return, escape), returned closure, constructors, global procedure, eval) around each of {} leaves (constants of every data kind, innermost/outer local, global, set!-then-read of local/global, immediate closure, let rebinding, quasiquote templates over a local, fixed/variadic/apply calls of globals, a logging call, five failures) = {} programs, each run as the session (define g 100); program; g on the real VM and on the reference CEK machine and compared form by form (value or failure, display/write output); B. every sequence of <= {} of the {} top-level forms over globals g h f (definitions, redefinitions, set!, late-bound procedure bodies, calls) = {} sessions, renamed apart inside a shared VM and (length <= 3) verbatim in a fresh VM; E. every tree of if forms of depth <= 2 (one- and two-armed, constant tests, five kinds of leaves incl. let and begin bodies) as a top-level form, as an operand and as a procedure body; D. twelve programs whose variables are spelled like the temporaries (var1, temp, atom-key) and free identifiers (not, memv, make-promise, begin) of the prelude's derived-form macros, with controls; C. every chain program of depth <= 2 also runs in a VM that first evaluated 60 unrelated globals, 5 macros, garbage and a collection, and (all of depth <= 1, every {}th of depth 2) twice in fresh VMs; all observations must be equal. Non-trivial = a program or session on which model and implementation agreed on every form (programs the model excludes - R7RS prescribes no outcome - are counted separately).",
+        "A. every chain of <= {} one-hole contexts ({} contexts, the 24 extended ones - nested quasiquote, case =>, multi-expression cond clause, multi-list map / for-each, let with internal define, empty let*, a promise forced twice, apply of map, accumulating named let, and / or / when / unless / one-armed if with the hole as a non-final operand or test, set! of a global - only below the maximal depth: operand positions, fixed/variadic/rest lambdas, apply, let/let*/letrec/named let, begin, if, cond (else, =>, test-only), case (clause, key, else =>), and/or/when/unless, quasiquote (list, vector, nested, cdr), delay/force, internal defines, set!, map/for-each callbacks, call/cc (return, escape), returned closure, constructors, global procedure, eval) around each of {} leaves (constants of every data kind, innermost/outer local, global, set!-then-read of local/global, immediate closure, let rebinding, quasiquote templates over a local, fixed/variadic/apply calls of globals, a logging call, five failures) = {} programs, each run as the session (define g 100); program; g on the real VM and on the reference CEK machine and compared form by form (value or failure, display/write output); B. every sequence of <= {} of the {} top-level forms over globals g h f (definitions, redefinitions, set!, late-bound procedure bodies, calls) = {} sessions, renamed apart inside a shared VM and (length <= 3) verbatim in a fresh VM; E. every tree of if forms of depth <= 2 (one- and two-armed, constant tests, five kinds of leaves incl. let and begin bodies) as a top-level form, as an operand and as a procedure body; D. sixteen programs whose variables are spelled like the temporaries (var1, temp, atom-key), the free identifiers (not, memv, make-promise, begin) and the keywords (and, when) of the prelude's derived-form macros, or that define the prelude's helper procedures (any?, map1), with controls; C. every chain program of depth <= 2 also runs in a VM that first evaluated 60 unrelated globals, 5 macros, garbage and a collection, and (all of depth <= 1, every {}th of depth 2) twice in fresh VMs; all observations must be equal. Non-trivial = a program or session on which model and implementation agreed on every form (programs the model excludes - R7RS prescribes no outcome - are counted separately).",
         max_depth, CONTEXTS.len(), LEAVES.len(), programs, max_len, SESSION_FORMS.len(), sessions, ctx.tier.pick(11, 1)
     );
     rep.extra("chain_programs_enumerated", json!(programs));
